@@ -198,7 +198,7 @@ def r4(ctx):
     ctx.check(mentions_call(e[2][4], r"format_read_response$"), "next-fragment:response", "transmits the freshly formatted response", bd.where(ws[0].idx))
     # series := next
     sl = bd.local_by_name("series")
-    defs = [sym.def_expr(blk, si) for l in sl for blk, si in bd.defs.get(l, [])]
+    defs = [x for l in sl for blk, si in bd.defs.get(l, []) for x in resolve_defs(bd, sym, sym.def_expr(blk, si), depth=3)]
     ctx.check(any(mentions_call(x, r"format_read_response$") for x in defs), "series<-next", "series is replaced by the one format_read_response returned", bd.where(line=bd.line))
     # the continue-wait arm formats nothing
     wf = prog.abody("OutstationSession::wait_for_sol_confirm")
